@@ -104,7 +104,8 @@ func (c *compiler) compile(o interface{}) error {
 		p := o.(Meta).Parent()
 		if !x.IsConfigSet() {
 			x.setConfig(c.inheritConfig(p))
-		} else if x.Config() && !p.(HasConfig).Config() {
+		} else if parentCfg, hasCfg := p.(HasConfig); x.Config() && hasCfg && !parentCfg.Config() {
+			// rpc input / output and notification have no config: the statement is ignored there (RFC7950 Sec 7.21.1)
 			return fmt.Errorf("%s - config cannot be true when parent config is false", SchemaPath(o.(Meta)))
 		}
 	}
